@@ -28,6 +28,7 @@ class Arr:
         self.data = data
         self.dtype = dtype
         self.fresh = fresh  # not aliasing any input / field (ownership for frame conditions)
+        self.origin = "fresh" if fresh else "unknown"  # fresh | param | unknown  (who may alias this array)
         self.stale = False
         self.views = []
         Arr._n += 1
@@ -97,7 +98,23 @@ def define2(i, rows, cols, elem, f, name="arr", dtype=None):
     return r
 
 
+VAL0 = z3.Const("val_zero", Val)  # the float 0.0 as an opaque payload
+VAL1 = z3.Const("val_one", Val)
+VALNAN = z3.Const("val_nan", Val)
+isnan = z3.Function("isnan", Val, Bool)
+
+
+def val_axioms():
+    return [z3.Distinct(VAL0, VAL1, VALNAN), isnan(VALNAN), z3.Not(isnan(VAL0)), z3.Not(isnan(VAL1))]
+
+
 def const_of(dtype_sort, v):
+    if dtype_sort == Val:
+        if v == 0:
+            return VAL0
+        if v == 1:
+            return VAL1
+        raise Unsupported("Val constant %r" % (v,))
     if dtype_sort == Int:
         return z3.IntVal(int(v))
     if dtype_sort == Real:
@@ -135,7 +152,18 @@ def check_live(a, node):
         raise Unsupported("read of an array view after its base was written (view aliasing not modelled)", node)
 
 
-def write(i, a, newdata, node):
+def write(i, a, newdata, node, check=True):
+    if not check:
+        pass
+    elif getattr(a, "readonly", False):
+        # frame condition: arrays owned by an abstract (immutable) object / declared read-only must not be written
+        i.ctx.prove("%s/frame:writes:array_of_immutable_object@%s" % (i._cur_label, getattr(node, "lineno", "?")),
+                    z3.BoolVal(False), node, "frame")
+    elif getattr(a, "origin", "fresh") == "unknown":
+        # the array may alias an object we cannot see (loop-havoc'd variable, callee result): a write through it
+        # could change that object
+        i.ctx.prove("%s/frame:writes:possibly_aliased_array@%s" % (i._cur_label, getattr(node, "lineno", "?")),
+                    z3.BoolVal(False), node, "frame")
     if getattr(a, "is_view", False):
         raise Unsupported("in-place write through a basic-slice view (aliasing not modelled)", node)
     for v in a.views:
@@ -224,7 +252,7 @@ def _snap(i, v):
 def _havoc(i, v, name, node):
     if isinstance(v, Arr):
         # contents change; shape is kept (resizing arrays are rebound, not mutated)
-        write(i, v, i.ctx.fresh(name, v.data.sort()), node)
+        write(i, v, i.ctx.fresh(name, v.data.sort()), node, check=False)
         return True
     return NotImplemented
 
@@ -235,7 +263,10 @@ def _fresh_like(i, v, name, node):
         shape = tuple(i.ctx.fresh("%s_dim%d" % (name, d), Int) for d in range(v.ndim))
         for s in shape:
             i.ctx.assume(s >= 0)
-        return Arr(shape, i.ctx.fresh(name, v.data.sort()), v.dtype)
+        r = Arr(shape, i.ctx.fresh(name, v.data.sort()), v.dtype)
+        r.origin = v.origin
+        r.fresh = v.fresh
+        return r
     return NotImplemented
 
 
@@ -513,12 +544,16 @@ from ..spec import Type  # noqa
 class TArr(Type):
     """numpy array with symbolic shape. elem: z3 sort. length: optional callable(ctx)->term to tie the length."""
 
-    def __init__(self, elem, ndim=1, dtype=None):
+    def __init__(self, elem, ndim=1, dtype=None, dims=None):
         self.elem, self.ndim, self.dtype = elem, ndim, dtype
+        self.dims = dims  # optional tuple of fixed dims (None = symbolic)
 
     def fresh(self, ctx, name):
-        shape = tuple(ctx.fresh("%s_dim%d" % (name, d), Int) for d in range(self.ndim))
+        shape = tuple((self.dims[d] if self.dims and self.dims[d] is not None else ctx.fresh("%s_dim%d" % (name, d), Int))
+                      for d in range(self.ndim))
         for s in shape:
-            ctx.assume(s >= 0)
+            if is_z3(s):
+                ctx.assume(s >= 0)
         a = Arr(shape, ctx.fresh(name, arr_sort(self.elem, self.ndim)), self.dtype or dtype_of_sort(self.elem), fresh=False)
+        a.origin = ctx.ghost.get("_origin", "unknown")
         return a
